@@ -4,6 +4,7 @@ from sim.engine import Result, Abandon, fp
 from sim.semrun import Sim, standard_ops, replay_script
 from sim.checks import common
 
+from sismic.exceptions import StatechartError
 from sismic.model import Statechart, CompoundState, OrthogonalState, BasicState, Transition
 
 ID = 'C17'
@@ -106,8 +107,26 @@ def run(ch, tier):
                 len({ren.get(n, n) for n in allnames}) != len(allnames) or any(v in sp.states for v in ren.values()):
             bad = [n for n in sorted(ren) if ren[n] in sp.states]
             del ren[bad[0] if bad else sorted(ren)[-1]]
-        for old in rs.shuffle(sorted(ren)):
-            sc.rename_state(old, ren[old])
+        todo = rs.shuffle(sorted(ren))
+        if len(allnames) >= 2 and rs.flag(1, 2):
+            # a renaming applied one state at a time may run into a name that is still taken: that call is refused
+            # (StatechartError) and must leave everything as it was; the renaming then goes on
+            x = rs.pick(allnames)
+            y = rs.pick([n for n in allnames if n != x])
+            at = rs.choice(len(todo) + 1)
+            todo.insert(at, (x, y))
+            res.stats['refused_rename_in_the_middle_of_a_renaming'] += 1
+        cur = {n: n for n in allnames}       # original name -> current name
+        for item in todo:
+            if isinstance(item, tuple):
+                try:
+                    sc.rename_state(cur[item[0]], cur[item[1]])
+                except StatechartError:
+                    continue
+                return res.fail('invalid-rename-accepted', 'rename_state(%r, %r) succeeded although the new name is taken' % (cur[item[0]], cur[item[1]]),
+                                chart=sp.describe(), renaming=ren)
+            sc.rename_state(item, ren[item])
+            cur[item] = ren[item]
         inv = {v: k for k, v in ren.items()}
         back = lambda s: inv.get(s, s)   # noqa
         ctx = dict(chart=sp.describe(), renaming=ren, script=[repr(o)[:60] for o in script][:30])
